@@ -34,6 +34,9 @@ def flatCalc (kind : String) (ev : PropEval) (fuel : Nat) : Except String Calc :
 
 def natJson (n : Nat) : Json := toJson n
 
+def ndistJson (r : NDist) : Json :=
+  Json.arr (r.map (fun p => Json.arr #[keyJson p.1, distJson p.2])).toArray
+
 def handle (op : String) (j : Json) : Option (Except String Json) :=
   match op with
   | "overhang_calc" => some do
@@ -59,18 +62,29 @@ def handle (op : String) (j : Json) : Option (Except String Json) :=
     let n ← j.getObjValAs? Nat "n"
     let fuel ← j.getObjValAs? Nat "fuel"
     let wrap ← j.getObjValAs? String "wrap"
-    let votes ← getVotes j "votes"
-    let prev ← getNatMap j "prev"
-    let caps ← getNatMap j "max"
-    let c ← flatCalc kind ev fuel
-    let adjJ := exceptJson natJson (c votes n prev caps)
-    let resJ :=
-      if wrap = "multistage" then
-        -- MultistageDistributor([Mock(direct), AdjustedSeatCount(calc, final)]).evaluate(votes, n)
-        exceptJson distJson (multistage [(mockStage prev, votes), (adjustedSeatCount c fev, votes)] n [] caps)
-      else
-        exceptJson distJson (adjustedSeatCount c fev votes n prev caps)
-    pure (Json.mkObj [("adj", adjJ), ("result", resJ)])
+    if kind = "level_cty" then
+      let cv ← getCVotes j "cvotes"
+      let cprev ← getCSeats j "cprev"
+      let app ← getNatMap j "app"
+      let cev := byConstituencyFixed ev app
+      let adjJ := exceptJson natJson (levelOverhangCty cev ev fuel cv n cprev)
+      let resJ :=
+        if wrap = "multistage" then exceptJson ndistJson (multistageDE cprev cev ev fuel fev fev cv n)
+        else exceptJson ndistJson (adjustedByParty cev ev fuel fev fev cv n cprev)
+      pure (Json.mkObj [("adj", adjJ), ("result", resJ)])
+    else
+      let votes ← getVotes j "votes"
+      let prev ← getNatMap j "prev"
+      let caps ← getNatMap j "max"
+      let c ← flatCalc kind ev fuel
+      let adjJ := exceptJson natJson (c votes n prev caps)
+      let resJ :=
+        if wrap = "multistage" then
+          -- MultistageDistributor([Mock(direct), AdjustedSeatCount(calc, final)]).evaluate(votes, n)
+          exceptJson distJson (multistage [(mockStage prev, votes), (adjustedSeatCount c fev, votes)] n [] caps)
+        else
+          exceptJson distJson (adjustedSeatCount c fev votes n prev caps)
+      pure (Json.mkObj [("adj", adjJ), ("result", resJ)])
   | _ => none
 
 end VL.Drv.C15
